@@ -172,24 +172,13 @@ def parse_tokens(line):
 
 
 def run_shard(args):
-    """Runs one case file on the implementation and on the model; returns paths."""
+    """Runs one case file on the model and on the implementation; returns paths.  The model runs first: a program that does
+    not come to an end within the model's step budget (marked fuel=1) is not handed to the implementation, whose run() has none."""
     exe, casefile, timeout = args
     iout = casefile + ".impl"
     mout = casefile + ".model"
     cons = casefile + ".console"
-    env = dict(os.environ, KOGE29_VERIF_DRIVER="1", KOGE29_VERIF_IN=casefile, KOGE29_VERIF_OUT=iout)
     status = {"impl_rc": None, "model_rc": None}
-    # a shard that does not finish in time is run once more with three times the limit before it counts: on a busy host a slow
-    # shard is not a hanging implementation
-    for attempt, limit in enumerate((timeout, 3 * timeout)):
-        try:
-            with open(cons, "wb") as cf:
-                p = subprocess.run([exe], env=env, stdout=cf, stderr=subprocess.DEVNULL, timeout=limit)
-            status["impl_rc"] = p.returncode
-            break
-        except subprocess.TimeoutExpired:
-            status["impl_rc"] = "timeout"
-            status["impl_timeouts"] = attempt + 1
     for limit in (timeout, 3 * timeout):
         try:
             p = subprocess.run("ulimit -s unlimited 2>/dev/null; exec %s %s %s" % (
@@ -200,6 +189,64 @@ def run_shard(args):
             break
         except subprocess.TimeoutExpired:
             status["model_rc"] = "timeout"
+    impl_in = casefile
+    if status["model_rc"] == 0:
+        endless = set()
+        for l in open(mout):
+            if l.startswith("M ") and l.rstrip().endswith(" fuel=1"):
+                endless.add(l.split(" ", 2)[1])          # "id=<id>"
+        if endless:
+            impl_in = casefile + ".impl_in"
+            with open(impl_in, "w") as f:
+                for l in open(casefile):
+                    if l.split(" ", 1)[0] not in endless:
+                        f.write(l)
+            status["endless"] = len(endless)
+    # a shard that does not finish in time is run once more with three times the limit before it counts: on a busy host a slow
+    # shard is not a hanging implementation.  A single case that does not finish within the driver's per-case limit stops the
+    # driver (exit code 97, the case named in <out>.hang): it is recorded and the shard carries on behind it.
+    hangs = []
+    part = 0
+    cur_in = impl_in
+    open(iout, "w").close()
+    open(cons, "wb").close()
+    while True:
+        part += 1
+        pout, pcons = "%s.part%d" % (iout, part), "%s.part%d" % (cons, part)
+        env = dict(os.environ, KOGE29_VERIF_DRIVER="1", KOGE29_VERIF_IN=cur_in, KOGE29_VERIF_OUT=pout)
+        for attempt, limit in enumerate((timeout, 3 * timeout)):
+            try:
+                with open(pcons, "wb") as cf:
+                    p = subprocess.run([exe], env=env, stdout=cf, stderr=subprocess.DEVNULL, timeout=limit)
+                status["impl_rc"] = p.returncode
+                break
+            except subprocess.TimeoutExpired:
+                status["impl_rc"] = "timeout"
+                status["impl_timeouts"] = attempt + 1
+        if os.path.exists(pout):
+            with open(iout, "a") as f:
+                f.write(open(pout).read())
+            os.remove(pout)
+        if os.path.exists(pcons):
+            with open(cons, "ab") as f:
+                f.write(open(pcons, "rb").read())
+            os.remove(pcons)
+        hang_file = pout + ".hang"
+        if status["impl_rc"] == 97 and os.path.exists(hang_file) and len(hangs) < 3:
+            hid = open(hang_file).read().strip()
+            os.remove(hang_file)
+            hangs.append(hid)
+            lines = open(cur_in).read().split("\n")
+            k = next((n for n, l in enumerate(lines) if l.split(" ", 1)[0] == hid), None)
+            if k is None:
+                break
+            cur_in = "%s.rest%d" % (casefile, part)
+            with open(cur_in, "w") as f:
+                f.write("\n".join(lines[k + 1:]))
+            status["impl_rc"] = 0
+            continue
+        break
+    status["hangs"] = hangs
     return casefile, iout, mout, cons, status
 
 
@@ -293,6 +340,7 @@ class Outcome:
         self.samples = []
         self.dist = {}
         self.broken = []          # shards that could not be run
+        self.endless = 0          # programs that do not end within the model's step budget (not run on the implementation)
         self.drift = []           # C15-style: outcome class differs from the model although nothing panicked (correspondence broken, no failing input)
 
 
@@ -329,7 +377,7 @@ def compare_shard(pid, casefile, iout, mout, status, oc, nontrivial_key=None, ke
                 I[cid]["con"] = I[cid].get("con", "") + part[nl + 1:].hex()
     for t in I.values():
         t.setdefault("con", "")
-    if status["impl_rc"] != 0 and len(I) < len(cases):
+    if status["impl_rc"] != 0 and len(I) < len(cases) - status.get("endless", 0):
         oc.broken.append((casefile, "implementation driver rc=%s produced %d of %d observations" % (status["impl_rc"], len(I), len(cases))))
     for line in cases:
         t = parse_tokens(line)
@@ -343,6 +391,13 @@ def compare_shard(pid, casefile, iout, mout, status, oc, nontrivial_key=None, ke
         i = I.get(cid)
         if m is None:
             oc.internal.append(("no model observation", line, ""))
+            continue
+        if m.get("fuel") == "1":
+            oc.endless += 1        # did not end within the model's step budget: not run on the implementation, no claim
+            continue
+        if ("id=" + cid) in status.get("hangs", []):
+            # the implementation did not finish this case (the model did): a hang is a failure on this input
+            oc.violations.append((line, None, m, r, ["implementation did not finish the case within the per-case limit"]))
             continue
         indom = d.get(pid) == "1"
         kclass = d.get("known_" + pid)
@@ -620,6 +675,7 @@ def check(pid, tier, seed, replay=None):
             "model_fidelity_notes_outside_domain": oc.fidelity_notes,
             "fidelity_samples": oc.fidelity_samples,
             "known_findings_reproduced": oc.known,
+            "programs_without_end_skipped": oc.endless,
             "samples": oc.samples or [{"note": "no in-domain sample"}],
             "exhaustive": bool(gen_info.get("exhaustive", False)),
             "generator": gen_info,
